@@ -17,6 +17,15 @@ pub mod walk;
 /// SMILES adjacency list representation.
 pub mod graph;
 
+/// Verification hooks (only with `--cfg purr_verif`): crate-private items
+/// re-exported for the external harness, and the `read_smiles` activation counter.
+#[cfg(purr_verif)]
+pub mod verif {
+    pub use crate::graph::VerifJoinPool as JoinPool;
+    pub use crate::graph::verif_reconcile as reconcile;
+    pub use crate::read::depth::{ max_depth, reset_depth };
+}
+
 // https://github.com/rust-lang/cargo/issues/383#issuecomment-720873790
 #[cfg(doctest)]
 mod test_readme {
